@@ -43,3 +43,11 @@
 ; -?(0|[1-9][0-9]*)(\.[0-9]+)?  (parse.rangeBoundaryRe). Such a literal never parses to NaN or an infinity.
 (declare-fun lexdec (String) Bool)
 (assert (forall ((s String)) (! (=> (lexdec s) (and (not (fp.isNaN (parse_float s))) (not (fp.isInfinite (parse_float s))))) :pattern ((lexdec s)))))
+; re_matches(re, s): the compiled regular expression re (a *regexp.Regexp) matches s (regexp.(*Regexp).MatchString)
+(declare-fun re_matches (Int String) Bool)
+; revision dates (C09): date_ok(s) - s is an RFC 3339 date-time that time.Parse accepts; date_key(s) - its instant
+; (seconds); every "YYYY-MM-DDT00:00:00Z" instant lies before 9999-12-31T23:59:59Z.
+(declare-fun date_ok (String) Bool)
+(declare-fun date_key (String) Int)
+(assert (forall ((s String)) (! (=> (and (date_ok s) (str.suffixof "T00:00:00Z" s)) (< (date_key s) (date_key "9999-12-31T23:59:59Z"))) :pattern ((date_key s)))))
+(assert (date_ok "9999-12-31T23:59:59Z"))
